@@ -102,45 +102,29 @@ let table_values (dd : string) (s : string) (len : int) : string array =
   if boolean dd then Array.map (fun b -> if b then "1" else "0") (hex_to_bits s len)
   else Array.of_list (String.split_on_char ',' s)
 
-(* ---- header scan (DumpHeader::load tokenisation; unverified, see DESIGN "M") ---- *)
+(* ---- the header: the extracted loader model (coq/IO/DddmpFile.v load_header) ---- *)
 
-type hscan = { h_ascii : bool; h_varinfo_none : bool; h_rootids : string; h_off : int }
+let herr_name (e : Model.herr) : string =
+  match e with
+  | Model.HEof -> "HEof" | Model.HVersion -> "HVersion" | Model.HMode -> "HMode" | Model.HVarinfo -> "HVarinfo"
+  | Model.HKey -> "HKey" | Model.HInt -> "HInt" | Model.HIntLarge -> "HIntLarge" | Model.HNsupp -> "HNsupp"
+  | Model.HIdsLen -> "HIdsLen" | Model.HPermLen -> "HPermLen" | Model.HAuxLen -> "HAuxLen" | Model.HIdsOrder -> "HIdsOrder"
+  | Model.HIdsRange -> "HIdsRange" | Model.HPermRange -> "HPermRange" | Model.HPermDup -> "HPermDup"
+  | Model.HOrderedLen -> "HOrderedLen" | Model.HSuppLen -> "HSuppLen" | Model.HVarnamesLen -> "HVarnamesLen"
+  | Model.HNameMismatch -> "HNameMismatch" | Model.HSuppMismatch -> "HSuppMismatch" | Model.HRootsLen -> "HRootsLen"
+  | Model.HRootZero -> "HRootZero" | Model.HRootRange -> "HRootRange" | Model.HRootnamesLen -> "HRootnamesLen"
+  | Model.HInternal -> "HInternal"
 
-let scan_header (file : string) : hscan option =
-  let n = String.length file in
-  let ascii = ref true and vin = ref true and rootids = ref "" in
-  let rec go pos =
-    if pos >= n then None
-    else
-      let e = try String.index_from file pos '\n' with Not_found -> n in
-      let next = if e < n then e + 1 else n in
-      let l = ref (String.sub file pos (e - pos)) in
-      while String.length !l > 0 && (!l.[String.length !l - 1] = '\r' || !l.[String.length !l - 1] = '\n') do
-        l := String.sub !l 0 (String.length !l - 1)
-      done;
-      let l = !l in
-      let sp =
-        let rec f i = if i >= String.length l then None else if l.[i] = ' ' || l.[i] = '\t' then Some i else f (i + 1) in
-        f 0
-      in
-      let key, value =
-        match sp with Some p -> (String.sub l 0 p, String.sub l (p + 1) (String.length l - p - 1)) | None -> (l, "")
-      in
-      let is_sp c = c = ' ' || c = '\t' in
-      let value =
-        let a = ref 0 and b = ref (String.length value) in
-        while !a < !b && is_sp value.[!a] do incr a done;
-        while !b > !a && is_sp value.[!b - 1] do decr b done;
-        String.sub value !a (!b - !a)
-      in
-      match key with
-      | ".nodes" -> Some { h_ascii = !ascii; h_varinfo_none = !vin; h_rootids = !rootids; h_off = next }
-      | ".mode" -> ascii := value = "A"; go next
-      | ".varinfo" -> vin := value = "4"; go next
-      | ".rootids" -> rootids := value; go next
-      | _ -> go next
-  in
-  go 0
+type mhdr = HdrOk of Model.header * int (* header, offset of the node section *) | HdrErr of string | HdrSkip
+
+(* the model loader on the whole file *)
+let model_header (file : string) : mhdr =
+  try
+    match Model.load_header (mbytes_of_string file) with
+    | Model.HOk (h, rest) -> HdrOk (h, String.length file - List.length rest)
+    | Model.HErr Model.HInternal -> raise (Bad ("corr", "the model loader reached a state proved unreachable (HInternal)"))
+    | Model.HErr e -> HdrErr (herr_name e)
+  with Stack_overflow | Out_of_memory -> HdrSkip
 
 (* ---- dump of the real diagram ---------------------------------------------- *)
 
@@ -211,24 +195,24 @@ let err_name (e : Model.err) : string =
   | Model.EOom -> "EOom" | Model.EEnd -> "EEnd" | Model.ESyntax -> "ESyntax" | Model.ENodeId -> "ENodeId"
   | Model.ETerminal -> "ETerminal" | Model.EArity -> "EArity" | Model.ERoot -> "ERoot" | Model.EInternal -> "EInternal"
 
-(* run the model importer on [file]; [slm] = level of every support position, [nlevels] *)
-let model_import (k : Model.kind) (file : string) (off : int) (nnodes : int) (slm : int list) (nlevels : int) :
-    (Model.ist * Model.cedge list, string) result =
-  match scan_header file with
-  | None -> Error "no .nodes line"
-  | Some h ->
-    if h.h_off <> off then Error (Printf.sprintf "header scan offset %d <> importer offset %d" h.h_off off)
-    else
-      let rootids =
-        match Model.parse_edge_list (mbytes_of_string h.h_rootids) with Model.Ok l -> l | Model.Err _ -> []
-      in
-      let body = mbytes_of_string (String.sub file off (String.length file - off)) in
-      (match
-         Model.import_file k h.h_ascii h.h_varinfo_none (List.map n_of_int slm) (n_of_int nlevels) (n_of_int nnodes) rootids
-           body
-       with
-      | Model.Ok (st, roots) -> Ok (st, roots)
-      | Model.Err e -> Error (err_name e))
+(* the model importer (coq/IO/DddmpFile.v import_whole_guarded: header loader + node section +
+   trailer + roots) on the whole [file]; [slm] = level of every support position, [nlevels] *)
+type mres =
+  | MOk of Model.header * Model.ist * Model.cedge list
+  | MHdr of string
+  | MPre
+  | MBody of string
+  | MSkip
+
+let model_whole (k : Model.kind) (file : string) (slm : int list) (nlevels : int) : mres =
+  try
+    match Model.import_whole_guarded k (List.map n_of_int slm) (n_of_int nlevels) (mbytes_of_string file) with
+    | Model.WOk ((h, st), roots) -> MOk (h, st, roots)
+    | Model.WHdr e -> MHdr (herr_name e)
+    | Model.WPre -> MPre
+    | Model.WBody Model.EInternal -> raise (Bad ("corr", "the model importer reached a state the real importer cannot be in (EInternal)"))
+    | Model.WBody e -> MBody (err_name e)
+  with Stack_overflow | Out_of_memory -> MSkip
 
 (* table of a model root over [vars] (bit j of the index = vars.(j)); level of variable v = v2l.(v);
    all other variables false *)
@@ -297,6 +281,32 @@ let names_field (s : string) : string list option =
 let show_names = function
   | None -> "none"
   | Some l -> "[" ^ String.concat "; " (List.map String.escaped l) ^ "]"
+
+(* the header the real loader returned (accessor values in the trace tokens [toks]) against the
+   model's header; [fail] raises the verdict *)
+let compare_header (fail : string -> unit) (h : Model.header) (off : int) (toks : string list) : unit =
+  let il l = String.concat "," (List.map string_of_n l) in
+  let chk what got want = if got <> want then fail (Printf.sprintf "header field %s: real loader [%s], model loader [%s]" what got want) in
+  let nlist s = if s = "-" then "" else s in
+  chk "offset of the node section" (kv_exn toks "off") (string_of_int off);
+  chk "nnodes" (kv_exn toks "nnodes") (string_of_n h.Model.h_nnodes);
+  chk "nvars" (kv_exn toks "nvars") (string_of_n h.Model.h_nvars);
+  chk "nsupp" (kv_exn toks "nsupp") (string_of_int (List.length h.Model.h_ids));
+  chk "ids" (nlist (kv_exn toks "ids")) (il h.Model.h_ids);
+  chk "support_var_order" (nlist (kv_exn toks "order")) (il h.Model.h_order);
+  chk "permids" (nlist (kv_exn toks "permids")) (il h.Model.h_permids);
+  chk "auxids" (nlist (kv_exn toks "aux")) (il h.Model.h_auxids);
+  chk "nroots" (kv_exn toks "nroots") (string_of_int (List.length h.Model.h_rootids));
+  let got_dd = tok_name (kv_exn toks "dd") in
+  let want_dd = match h.Model.h_dd with [] -> None | d -> Some (string_of_mbytes d) in
+  if got_dd <> want_dd then
+    fail (Printf.sprintf "diagram name: real loader %s, model loader %s" (show_names (Option.map (fun x -> [ x ]) got_dd))
+            (show_names (Option.map (fun x -> [ x ]) want_dd)));
+  let opt_names = function [] -> None | l -> Some (List.map string_of_mbytes l) in
+  let got_vn = names_field (kv_exn toks "names") and want_vn = opt_names h.Model.h_varnames in
+  if got_vn <> want_vn then fail (Printf.sprintf "variable names: real loader %s, model loader %s" (show_names got_vn) (show_names want_vn));
+  let got_rn = names_field (kv_exn toks "rootnames") and want_rn = opt_names h.Model.h_rootnames in
+  if got_rn <> want_rn then fail (Printf.sprintf "root names: real loader %s, model loader %s" (show_names got_rn) (show_names want_rn))
 
 (* ---- the X op ---------------------------------------------------------------- *)
 
@@ -423,16 +433,57 @@ let check_export dd nv (names : string option array) (tables : string array list
         tt
     | Some toks -> prop "import with a variable mapping failed: %s" (String.concat " " toks)
   end;
-  (* 6. the model's reading of the bytes = the real diagram *)
+  (* 6. the header: the model loader reads what the real loader reads, and the exporter's
+     header model prints the real header byte for byte *)
+  let off = int_of_string (kv_exn hdr "off") in
+  let mh =
+    match model_header file with
+    | HdrErr e -> corr "the model loader rejects the exporter's header: %s" e
+    | HdrSkip -> corr "the model loader ran out of stack on the exporter's header"
+    | HdrOk (h, moff) ->
+      compare_header (fun m -> corr "%s" m) h moff hdr;
+      h
+  in
+  (let l2v = Array.make nv 0 in
+   Array.iteri (fun v l -> if l < nv then l2v.(l) <- v) v2l;
+   let xh =
+     {
+       Model.x_ver3 = o.ver3;
+       (* export.rs: ascii = settings.ascii || !binary_supported(manager) (two children and a single
+          terminal in the manager) || some exported terminal is not printed as "T" *)
+       x_ascii =
+         o.ascii || dd = "tdd"
+         || (match kv src "nterm" with Some "1" -> false | _ -> true)
+         || List.exists (fun (_, n) -> match n with DT d -> d <> "T" | DI _ -> false) dump.dnodes;
+       x_dd = mbytes_of_string (match o.ddname with Some d -> d | None -> "");
+       x_nnodes = n_of_int (List.length dump.dnodes);
+       x_vars = List.init nv (fun v -> (n_of_int v2l.(v), List.mem v supp));
+       x_l2v = List.map n_of_int (Array.to_list l2v);
+       x_names = exp_names;
+       (* the ids the exporter gives to the nodes depend on hash map iteration orders: the
+          root references are taken from the file (and checked against the dump below) *)
+       x_rootids = mh.Model.h_rootids;
+       x_rootnames = (if o.named_roots then Some exp_rootnames else None);
+     }
+   in
+   let want = string_of_mbytes (Model.print_header xh) in
+   let got = String.sub file 0 (min off (String.length file)) in
+   if want <> got then corr "exporter header model prints %S, the real header is %S" want got;
+   let hx = Model.header_of xh in
+   if hx <> mh then corr "header_of (the expected result of loading the printed header) differs from what the model loader returns";
+   stat "headers_reproduced" 1);
+  (* 7. the model's reading of the bytes = the real diagram *)
   (match model_kind dd with
   | None -> ()
   | Some k ->
-    let off = int_of_string (kv_exn hdr "off") in
     let order = ints (kv_exn hdr "order") in
     let slm = List.map (fun v -> v2l.(v)) order in
-    (match model_import k file off (List.length dump.dnodes) slm nv with
-    | Error e -> corr "model importer rejects the exporter's file: %s" e
-    | Ok (st, roots) ->
+    (match model_whole k file slm nv with
+    | MHdr e -> corr "model importer rejects the exporter's file: header %s" e
+    | MBody e -> corr "model importer rejects the exporter's file: %s" e
+    | MPre -> corr "model importer: number of support variables differs from the header's"
+    | MSkip -> corr "model importer ran out of stack on the exporter's file"
+    | MOk (mhdr, st, roots) ->
       check_iso dd st.Model.st_store roots dump;
       let vars = Array.init nv (fun v -> v) in
       List.iteri
@@ -445,8 +496,7 @@ let check_export dd nv (names : string option array) (tables : string array list
       let body_len = String.length file - off - 5 in
       if export_ok && body_len >= 0 && String.sub file (off + body_len) 5 = ".end\n" then begin
         let body = String.sub file off body_len in
-        let hs = match scan_header file with Some h -> h | None -> corr "no header" in
-        if hs.h_ascii then begin
+        if mhdr.Model.h_ascii then begin
           (* re-print the parsed lines with the model's line printer *)
           let lines = List.filter (fun l -> l <> "") (String.split_on_char '\n' body) in
           let anodes =
@@ -498,49 +548,63 @@ let check_mutation dd (base : string) (toks : string list) (res : string) : unit
   if starts_with res "PANIC" then prop "importer panicked: %s" res;
   if starts_with res "CRASH" then prop "importer crashed the process: %s" res;
   if starts_with res "skip=" then stat "mal_skipped" 1
-  else if starts_with res "hdr=err" then stat "mal_rejected_header" 1
   else begin
     let file = apply_mutation base mtoks in
-    match kv rt "skip" with
-    | Some _ -> stat "mal_skipped" 1
-    | None -> (
-      let off = int_of_string (kv_exn rt "off") in
-      let nnodes = match int_of_string_opt (kv_exn rt "nnodes") with Some v -> v | None -> max_int in
-      let sv = ints (kv_exn rt "sv") in
-      let imp = kv_exn rt "imp" in
-      match model_kind dd with
-      | None -> ()
-      | Some k ->
-        let mv = match kv rt "mv" with Some v -> int_of_string v | None -> max (int_of_string (kv_exn rt "nvars")) 1 in
-        let nnodes_m = min nnodes 100000 in
-        let m = model_import k file off nnodes_m sv mv in
-        if starts_with imp "err" then begin
-          stat "mal_rejected_nodes" 1;
-          match m with
-          | Ok _ when nnodes = nnodes_m && not (is_l && starts_with imp "err:OutOfMemory") ->
-            corr "real importer rejects (%s), model accepts" imp
-          | _ -> ()
-        end
-        else begin
-          stat "mal_accepted" 1;
-          match m with
-          | Error e -> corr "real importer accepts, model rejects (%s)" e
-          | Ok (st, roots) ->
-            let tt = kv_exn rt "tt" in
-            if tt <> "skip" then begin
-              let real = split_on '|' tt in
-              if List.length real <> List.length roots then prop "importer returned %d handles, model %d" (List.length real) (List.length roots);
-              let v2l = Array.init (max mv 1) (fun v -> v) in
-              let vars = Array.of_list sv in
-              List.iteri
-                (fun j r ->
-                  let t = model_table dd k st mv v2l vars r in
-                  if t <> List.nth real j then
-                    prop "importer built a function with table %s for root %d, the model reads %s from the same bytes" (List.nth real j) j t)
-                roots
-            end;
-            ignore dd
-        end)
+    (* the header: DumpHeader::load Err <-> model loader Err; both Ok => same header *)
+    let mh = model_header file in
+    if starts_with res "hdr=err" then begin
+      match mh with
+      | HdrOk _ -> corr "DumpHeader::load rejects the header (%s), the model loader accepts it" res
+      | HdrErr e -> stat "mal_rejected_header" 1; stat ("mal_hdr_" ^ e) 1
+      | HdrSkip -> stat "mal_model_skipped" 1
+    end
+    else begin
+      (match mh with
+      | HdrErr e -> corr "DumpHeader::load accepts the header, the model loader rejects it (%s)" e
+      | HdrSkip -> stat "mal_model_skipped" 1
+      | HdrOk (h, off) ->
+        compare_header (fun m -> corr "%s" m) h off rt;
+        stat "mal_headers_equal" 1);
+      match kv rt "skip" with
+      | Some _ -> stat "mal_skipped" 1
+      | None -> (
+        let sv = ints (kv_exn rt "sv") in
+        let imp = kv_exn rt "imp" in
+        match model_kind dd with
+        | None -> ()
+        | Some k ->
+          let mv = match kv rt "mv" with Some v -> int_of_string v | None -> max (int_of_string (kv_exn rt "nvars")) 1 in
+          let m = model_whole k file sv mv in
+          if starts_with imp "err" then begin
+            stat "mal_rejected_nodes" 1;
+            match m with
+            | MOk _ when not (is_l && starts_with imp "err:OutOfMemory") -> corr "real importer rejects (%s), model accepts" imp
+            | MHdr e -> corr "real loader accepts the header, model importer rejects it (%s)" e
+            | MPre -> corr "model importer: number of support variables differs from the header's"
+            | _ -> ()
+          end
+          else begin
+            stat "mal_accepted" 1;
+            match m with
+            | MHdr e | MBody e -> corr "real importer accepts, model rejects (%s)" e
+            | MPre -> corr "model importer: number of support variables differs from the header's"
+            | MSkip -> stat "mal_model_skipped" 1
+            | MOk (_, st, roots) ->
+              let tt = kv_exn rt "tt" in
+              if tt <> "skip" then begin
+                let real = split_on '|' tt in
+                if List.length real <> List.length roots then prop "importer returned %d handles, model %d" (List.length real) (List.length roots);
+                let v2l = Array.init (max mv 1) (fun v -> v) in
+                let vars = Array.of_list sv in
+                List.iteri
+                  (fun j r ->
+                    let t = model_table dd k st mv v2l vars r in
+                    if t <> List.nth real j then
+                      prop "importer built a function with table %s for root %d, the model reads %s from the same bytes" (List.nth real j) j t)
+                  roots
+              end
+          end)
+    end
   end
 
 (* ---- main loop ---------------------------------------------------------------- *)
